@@ -268,6 +268,9 @@ func checkC06(r *Run) propMeta {
 	checkVariableSymbolsRaw(r, r.MustPkg("cypher/frontend"))
 	checkNoCrossNamespaceComparison(r, tp)
 	checkConsistentResultBinding(r, tp, r.MustPkg("cypher/models/pgsql/optimize"))
+	checkIdentifierCaseFolding(r, "C06-R13-identifier-case", tp, r.MustPkg("cypher/models/pgsql/optimize"))
+	checkPrefixSchemeTests(r, "C06-R14-prefix-scheme", tp, r.MustPkg("cypher/models/pgsql/optimize"))
+	checkNameKindsNotMixed(r, "C06-R15-name-kinds", r.MustPkg("cypher/models/cypher"), tp, r.MustPkg("cypher/models/pgsql/optimize"))
 	r.Floor("C06-R1-alias-namespace", 15)
 	r.Floor("C06-R2-definition-namespace", 8)
 	r.Floor("C06-R3-parameter-deref", 1)
